@@ -26,3 +26,11 @@ package kv
 //@ # values. Stated as a lock discipline: the storage handle is only used with the counter's mutex held.
 //@ guarded_by AtomicInt64Counter.db mu
 //@ unshared OpenCounter the counter is built before it is published
+
+//@ # ghost: the number of transactions applied to the store so far
+//@ ghost SpecApplied *int
+//@ # a successful Commit applies the transaction: it is the next one in the store's commit order
+//@ trusted func (t Tx) Commit(ctx context.Context, opts ...any) (err error)
+//@   ensures err == nil ==> *SpecApplied == old(*SpecApplied) + 1
+//@   ensures err != nil ==> *SpecApplied == old(*SpecApplied)
+//@   modifies SpecApplied
